@@ -47,6 +47,10 @@ EXPLANATION = (
     "offset) must lie inside the data, at offset 4(k-1), under exactly the "
     "condition n_args >= k and len >= 4k; the remaining payload starts at 4 x "
     "(arguments read). Encoder order is a CFG-dominance fact.")
+EXPLANATION += (
+    " R1 compares by absolute byte offsets (constant zero padding in front "
+    "of the packed header, unpack_from offset) and reads range tests of "
+    "SDPPacket.__init__ against the field widths.")
 NOT_DECIDED = [
     "values wider than their field are the caller's responsibility (struct "
     "raises for bytes; port/cpu are masked)",
